@@ -19,7 +19,7 @@ namespace KM.Props.C04Src
 open KM.CaK
 
 /-- Variant of the model's state ↦ variant of the Rust enum. -/
-def variantOf : KeyState → KM.Gen.KeyState
+def variantOf : KeyState → KM.Gen.C04.KeyState
   | .pending _ => .Pending
   | .active _ => .Active
   | .rollPending .. => .RollPending
@@ -39,22 +39,22 @@ def oldKey (d : KeyId) : KeyState → KeyId
 
 /-- `KeyState::knows_key` as translated from the source = the model, for every state and key. -/
 theorem gen_knows_key_eq_model (ks : KeyState) (ki d : KeyId) :
-    KM.Gen.KeyState.knows_key (variantOf ks) (pendingKey d ks) (currentKey d ks) (newKey d ks) (oldKey d ks) ki
+    KM.Gen.C04.KeyState.knows_key (variantOf ks) (pendingKey d ks) (currentKey d ks) (newKey d ks) (oldKey d ks) ki
       = ks.knows ki := by
   cases ks <;>
-    simp [KM.Gen.KeyState.knows_key, variantOf, pendingKey, currentKey, newKey, oldKey, KeyState.knows,
+    simp [KM.Gen.C04.KeyState.knows_key, variantOf, pendingKey, currentKey, newKey, oldKey, KeyState.knows,
       KeyState.keyIds, eq_comm]
 
 /-- The placeholder is irrelevant: keys the variant does not have are not consulted. -/
 theorem gen_knows_key_ignores_absent (ks : KeyState) (ki d d' : KeyId) :
-    KM.Gen.KeyState.knows_key (variantOf ks) (pendingKey d ks) (currentKey d ks) (newKey d ks) (oldKey d ks) ki
-      = KM.Gen.KeyState.knows_key (variantOf ks) (pendingKey d' ks) (currentKey d' ks) (newKey d' ks)
+    KM.Gen.C04.KeyState.knows_key (variantOf ks) (pendingKey d ks) (currentKey d ks) (newKey d ks) (oldKey d ks) ki
+      = KM.Gen.C04.KeyState.knows_key (variantOf ks) (pendingKey d' ks) (currentKey d' ks) (newKey d' ks)
           (oldKey d' ks) ki := by
   rw [gen_knows_key_eq_model, gen_knows_key_eq_model]
 
 /-- Non-vacuity, and what the seeded change broke: the NEW key of a roll is known. -/
-example (n c : CertKey) : KM.Gen.KeyState.knows_key (variantOf (.rollNew n c)) (pendingKey 0 (.rollNew n c))
+example (n c : CertKey) : KM.Gen.C04.KeyState.knows_key (variantOf (.rollNew n c)) (pendingKey 0 (.rollNew n c))
     (currentKey 0 (.rollNew n c)) (newKey 0 (.rollNew n c)) (oldKey 0 (.rollNew n c)) n.id = true := by
-  simp [KM.Gen.KeyState.knows_key, variantOf, newKey]
+  simp [KM.Gen.C04.KeyState.knows_key, variantOf, newKey]
 
 end KM.Props.C04Src
